@@ -482,11 +482,18 @@ def completion_monitor(case, lines, strict_content=True):
         ok_res = res.startswith("ok") or res.startswith("err Pub")
         if ok_res and need:
             t_last = 5 if res.startswith("err Pubrec") else need[-1]
-            cands = [k for k, i in acks_seen.get((t_last, pid), []) if fp[op] < k <= k_done]
+            base = fp[op]
+            if t_last == 7:
+                # the PUBCOMP that counts is the first one after this operation's PUBREL was written
+                rel = [k for k, i in outp if i["kind"] == "pubrel" and i.get("pid") == pid and k > fp[op]]
+                if not rel:
+                    return "ownack: operation %d (publish id %s) completed with '%s' without having sent its PUBREL" % (op, pid, res[:30])
+                base = rel[0]
+            cands = [k for k, i in acks_seen.get((t_last, pid), []) if base < k <= k_done]
             if not cands:
                 return "ownack: operation %d (%s id %s) completed with '%s' before its acknowledgement arrived" % (op, pkt["kind"], pid, res[:30])
             if strict_content:
-                i = [i for k, i in acks_seen[(t_last, pid)] if fp[op] < k <= k_done][0]
+                i = [i for k, i in acks_seen[(t_last, pid)] if base < k <= k_done][0]
                 m = re.search(r"r=(\d+)", res)
                 if res.startswith("err Pub") and (not m or int(m.group(1)) != i["reason"]):
                     return "content: operation %d reports reason %s, its acknowledgement carried %d" % (op, m and m.group(1), i["reason"])
